@@ -189,10 +189,10 @@ class Reader:
         self.close()
 
     def __getitem__(self, item):
-        if isinstance(item, int) or isinstance(item, slice):
-            return self.read(nsel=item, sync=False)
-        elif len(item) == 2:
+        if isinstance(item, tuple) and len(item) == 2:
             return self.read(nsel=item[0], csel=item[1], sync=False)
+        else:
+            return self.read(nsel=item, sync=False)
 
     @property
     def sample2volts(self):
